@@ -1,5 +1,7 @@
 import XmppModel.Prelude.Hex
 import XmppModel.Model.Correlate
+import XmppModel.Driver.C15
+import XmppModel.Driver.C18
 /-! Driver module for C06: replays an observed trace of a forced schedule on the LTS of
 `Model/Correlate.lean`.  The answer is the model's final summary if every trace event is
 enabled in the model (trace inclusion), `bad@n:tok` otherwise.
@@ -174,6 +176,8 @@ def handle (args : List String) : Option String :=
     match replayR idf (splitList trace) 0 Receipts.rinit with
     | .ok s => pure (summaryR l.length s)
     | .error e => pure e
-  | _ => none
+  -- the MUC and in-band bytestream instances reuse the models of C18 / C15
+  | "muc" :: _ => C18.handle args
+  | _ => C15.handle args
 
 end XmppModel.Driver.C06
